@@ -4,12 +4,13 @@ from gen import regs, datasets, frame, templates
 from props import c01
 
 ID = "C05"
-THEOREMS = ["Bufr.C05.C05_decode_total", "Bufr.C05.C05_expansion_bounded", "Bufr.C05.C05_reader_in_bounds", "Bufr.C05.C05_element_shape"]
+THEOREMS = ["Bufr.C05.C05_decode_total", "Bufr.C05.C05_expansion_bounded", "Bufr.C05.C05_reader_in_bounds", "Bufr.C05.C05_element_shape",
+            "Bufr.C05.C05_bitmap_in_bounds", "Bufr.C05.C05_bitmap_step"]
 RULE = ("valid messages of the C01/C02 space (own encoder) mutated at the data-section level (truncation at every "
         "octet class, bit flips, random tails, wrong subset counts incl. 0 and 65535, compression flag toggled, "
         "descriptor lists with unknown/ill-formed/huge-replication descriptors) and at the message level (section "
         "lengths, total length, truncation, nested start markers, random bytes); pure random byte strings; compressed "
-        "data whose delayed replication factors differ between subsets; data present bit-map templates and the repository's sample messages, damaged (implementation only). "
+        "data whose delayed replication factors differ between subsets; data present bit-map templates of every shape (tied to BufrModel/Bitmap.lean, compressed and not); the repository's sample messages, damaged (implementation only). "
         "distinct = distinct (mutation kind, outcome class)")
 ASSUMPTIONS = c01.ASSUMPTIONS + ["the process is the harness: exit() is intercepted at link time, the abort handler is the application's"]
 P = c01.P
@@ -131,8 +132,11 @@ def factor_scenarios(rng, n):
 
 def bitmap_scenarios(rng, n):
     """data present bit-maps (2 22/2 23/2 24/2 25/2 32 000, 2 36/2 37, 0 31 031, marker operators, class 33
-    elements): outside the model (the tie is not made, `nomodel`), the implementation alone is run under
-    the sanitizers.  Bit-map sizes, marker counts and the data disagree on purpose."""
+    elements).  Bit-map sizes, marker counts and the data disagree on purpose.  Tied since BufrModel/Bitmap.lean
+    models the bit-map head of bufr_apply_tables2node (index, count-down, evaluation, marker resolution), compressed
+    and not; every second scenario comes from gen/bitmap.wild_template (delayed bit-maps, markers outside
+    replications, several groups, operators and associated fields on the elements referred to)."""
+    from gen import bitmap as gbm
     out = []
     for i in range(n):
         name = rng.choice(["cur", "v13"])
@@ -164,7 +168,12 @@ def bitmap_scenarios(rng, n):
         ls = ["T.use " + name, "ds.decode %d 1 %d %d 0 0 %s %s" % (rng.choice([3, 4, 4]), flag, nsub, ",".join("%06d" % d for d in descs), s4.hex() or "-")]
         for k in range(min(nsub, 2)):
             ls += ["dd.list %d" % k, "dd.vals %d" % k]
-        out.append(Scenario("dpbm-%d" % i, ls, {"kind": "bitmap-" + kind, "tables": name, "nomodel": True}))
+        out.append(Scenario("dpbm-%d" % i, ls, {"kind": "bitmap-" + kind, "tables": name}))
+        msg, t, nsub = gbm.build_wild(rng, B, D, compressed=(i % 3 == 0))
+        ls = ["T.use " + name, "ds.decodemsg " + msg.hex()]
+        for k in range(min(nsub, 2)):
+            ls += ["dd.list %d" % k, "dd.vals %d" % k]
+        out.append(Scenario("dpbw-%d" % i, ls, {"kind": "bitmap-wild" + ("-c" if i % 3 == 0 else ""), "tables": name}))
     return out
 
 def sample_scenarios(rng, per_file):
@@ -238,13 +247,8 @@ def scenarios(rng, tier, runner):
     return out
 
 def _outside_model(scn):
-    """a descriptor list with data present bit-map operators (2 21 … 2 37): not modelled"""
-    for l in scn.lines:
-        t = l.split()
-        if t and t[0] == "ds.decode" and len(t) >= 9:
-            for d in t[7].split(","):
-                if d.isdigit() and int(d) // 100000 == 2 and 21 <= int(d) // 1000 % 100 <= 37:
-                    return True
+    """nothing the generators of this module produce is outside the model any more (data present bit-map operators
+    2 21 … 2 37 were, until BufrModel/Bitmap.lean); the sample messages carry their own `nomodel` mark"""
     return False
 
 def compare(scn, lscn, cr, lr):
